@@ -141,8 +141,12 @@ var c04Rules = []c04Rule{
 		return true
 	}},
 	{"paths-missing", "root", "", func(d, _ map[string]any, _ []string) bool { delete(d, "paths"); return true }},
-	{"path-without-leading-slash", "root", "", func(d, _ map[string]any, _ []string) bool { return renameKey(d, []string{"paths"}, "/health", "health") }},
-	{"template-variable-without-parameter", "root", "", func(d, _ map[string]any, _ []string) bool { return renameKey(d, []string{"paths"}, "/health", "/health/{zz}") }},
+	{"path-without-leading-slash", "root", "", func(d, _ map[string]any, _ []string) bool {
+		return renameKey(d, []string{"paths"}, "/health", "health")
+	}},
+	{"template-variable-without-parameter", "root", "", func(d, _ map[string]any, _ []string) bool {
+		return renameKey(d, []string{"paths"}, "/health", "/health/{zz}")
+	}},
 	{"path-parameter-without-template-variable", "root", "", func(d, _ map[string]any, _ []string) bool {
 		op, _ := GetAt(d, []string{"paths", "/health", "get"})
 		op.(map[string]any)["parameters"] = []any{map[string]any{"name": "q", "in": "path", "required": true, "schema": map[string]any{"type": "string"}}}
@@ -163,11 +167,27 @@ var c04Rules = []c04Rule{
 			"get": cloneJSON(ok), "put": map[string]any{"parameters": []any{pp}, "responses": cloneJSON(ok["responses"])}}
 		return true
 	}},
-	{"template-variable-and-path-parameter-names-differ", "root", "", func(d, _ map[string]any, _ []string) bool { return renameKey(d, []string{"paths"}, "/items/{id}", "/items/{idx}") }},
+	{"template-variable-and-path-parameter-names-differ", "root", "", func(d, _ map[string]any, _ []string) bool {
+		return renameKey(d, []string{"paths"}, "/items/{id}", "/items/{idx}")
+	}},
 	{"conflicting-path-templates", "root", "", func(d, _ map[string]any, _ []string) bool {
 		d["paths"].(map[string]any)["/items/{other}"] = map[string]any{
 			"parameters": []any{map[string]any{"name": "other", "in": "path", "required": true, "schema": map[string]any{"type": "string"}}},
 			"get":        map[string]any{"responses": map[string]any{"200": map[string]any{"description": "ok"}}}}
+		return true
+	}},
+	// the same conflict with a third, harmless template that sorts between the two conflicting ones
+	{"conflicting-path-templates:with-a-path-sorting-between-them", "root", "", func(d, _ map[string]any, _ []string) bool {
+		mk := func(vars ...string) map[string]any {
+			var ps []any
+			for _, v := range vars {
+				ps = append(ps, map[string]any{"name": v, "in": "path", "required": true, "schema": map[string]any{"type": "string"}})
+			}
+			return map[string]any{"parameters": ps, "get": map[string]any{"responses": map[string]any{"200": map[string]any{"description": "ok"}}}}
+		}
+		paths := d["paths"].(map[string]any)
+		paths["/items/{id}/parts"] = mk("id") // "/items/{id}" < "/items/{id}/parts" < "/items/{other}"
+		paths["/items/{other}"] = mk("other")
 		return true
 	}},
 	{"duplicate-operationId", "root", "", func(d, _ map[string]any, _ []string) bool {
@@ -175,12 +195,18 @@ var c04Rules = []c04Rule{
 		op.(map[string]any)["operationId"] = "getItem"
 		return true
 	}},
-	{"externalDocs-without-url", "root", "", func(d, _ map[string]any, _ []string) bool { delete(d["externalDocs"].(map[string]any), "url"); return true }},
+	{"externalDocs-without-url", "root", "", func(d, _ map[string]any, _ []string) bool {
+		delete(d["externalDocs"].(map[string]any), "url")
+		return true
+	}},
 	{"tag-externalDocs-without-url", "root", "", func(d, _ map[string]any, _ []string) bool {
 		delete(d["tags"].([]any)[0].(map[string]any)["externalDocs"].(map[string]any), "url")
 		return true
 	}},
-	{"server-url-empty", "root", "", func(d, _ map[string]any, _ []string) bool { d["servers"].([]any)[0].(map[string]any)["url"] = ""; return true }},
+	{"server-url-empty", "root", "", func(d, _ map[string]any, _ []string) bool {
+		d["servers"].([]any)[0].(map[string]any)["url"] = ""
+		return true
+	}},
 	{"server-variable-not-in-url", "root", "", func(d, _ map[string]any, _ []string) bool {
 		d["servers"].([]any)[1].(map[string]any)["variables"].(map[string]any)["extra"] = map[string]any{"default": "x"}
 		return true
@@ -207,8 +233,14 @@ var c04Rules = []c04Rule{
 	{"root-extra-field", "root", "extra", func(d, _ map[string]any, _ []string) bool { d["zz"] = 1.0; return true }},
 	{"info-extra-field", "root", "extra", func(d, _ map[string]any, _ []string) bool { d["info"].(map[string]any)["zz"] = 1.0; return true }},
 	{"components-extra-field", "root", "extra", func(d, _ map[string]any, _ []string) bool { d["components"].(map[string]any)["zz"] = 1.0; return true }},
-	{"server-extra-field", "root", "extra", func(d, _ map[string]any, _ []string) bool { d["servers"].([]any)[0].(map[string]any)["zz"] = 1.0; return true }},
-	{"tag-extra-field", "root", "extra", func(d, _ map[string]any, _ []string) bool { d["tags"].([]any)[0].(map[string]any)["zz"] = 1.0; return true }},
+	{"server-extra-field", "root", "extra", func(d, _ map[string]any, _ []string) bool {
+		d["servers"].([]any)[0].(map[string]any)["zz"] = 1.0
+		return true
+	}},
+	{"tag-extra-field", "root", "extra", func(d, _ map[string]any, _ []string) bool {
+		d["tags"].([]any)[0].(map[string]any)["zz"] = 1.0
+		return true
+	}},
 	// component names (one per section)
 	{"component-name-invalid", "component-section", "", func(d, sec map[string]any, ptr []string) bool {
 		for _, k := range sortedKeys(sec) {
@@ -368,7 +400,11 @@ var c04Rules = []c04Rule{
 	{"header-has-name", "header", "", set("name", "X-N")},
 	{"header-has-in", "header", "", set("in", "header")},
 	// schemas
-	{"schema-readOnly-and-writeOnly", "schema", "", func(_ map[string]any, n map[string]any, _ []string) bool { n["readOnly"] = true; n["writeOnly"] = true; return true }},
+	{"schema-readOnly-and-writeOnly", "schema", "", func(_ map[string]any, n map[string]any, _ []string) bool {
+		n["readOnly"] = true
+		n["writeOnly"] = true
+		return true
+	}},
 	{"schema-unknown-type", "schema", "", func(_ map[string]any, n map[string]any, _ []string) bool {
 		if typ(n) == "" {
 			return false
@@ -663,7 +699,10 @@ func init() {
 			"a mutated document that already fails to load counts as rejected",
 			"the skeleton (design/skeleton.json) conforms to every enforced rule",
 		},
-		Bounds:        func(tier string) map[string]any { prep(); return map[string]any{"rules": len(c04Rules), "rule_x_location_cases": len(cases), "option_sets": 64, "violations_per_document": 1} },
+		Bounds: func(tier string) map[string]any {
+			prep()
+			return map[string]any{"rules": len(c04Rules), "rule_x_location_cases": len(cases), "option_sets": 64, "violations_per_document": 1}
+		},
 		MinOutcomes:   3,
 		ShrinkVectors: true,
 		Body: func(r *core.Run, x *explore.X) {
